@@ -1,5 +1,6 @@
 (* C07 - model of pkg/istoragecache/impl.go.
-   Part 1: sequential cache over an arbitrary underlying storage step function.
+   Part 1: sequential cache over an arbitrary underlying storage step function (entries carry their
+           size: fastcache ignores an entry that does not fit a chunk, setCached marks such a row).
    Part 2: small-step schedule model (one writer, any number of readers, one key) at the
            granularity of calls into the underlying storage and cache fills.
    Definitions only. *)
@@ -13,15 +14,55 @@ Local Open Scope Z_scope.
 (* makeKey: pKey ++ cCols (no separator: finding F7) *)
 Definition make_key (pk cc : bytes) : bytes := pk ++ cc.
 
-(* a cache entry: None = "known missing" (empty bytes), Some (expireAt, value) *)
-Definition centry := option (Z * bytes).
+(* a cache entry: CNeg = "known missing" (empty bytes), CPos expireAt value = 8-byte expiry header ++ value,
+   CBig = the one-byte mark `uncacheable`: the row exists in the storage but its entry does not fit the
+   cache (repair of finding F26); a marked entry counts as cached for the fill guards and sends every
+   read to the storage *)
+Inductive centry := CNeg | CPos (exp : Z) (v : bytes) | CBig.
 Definition cache := smap centry.
 
 Definition c_get (c : cache) (pk cc : bytes) : option centry := sm_get (make_key pk cc) c.
 Definition c_set (c : cache) (pk cc : bytes) (e : centry) : cache := sm_put (make_key pk cc) e c.
 Definition c_del (c : cache) (pk cc : bytes) : cache := sm_del (make_key pk cc) c.
-Definition c_set_if_absent (c : cache) (pk cc : bytes) (e : centry) : cache :=
-  match c_get c pk cc with Some _ => c | None => c_set c pk cc e end.
+
+Definition blen (b : bytes) : Z := Z.of_nat (length b).
+
+(* fastcache's Set (library code, modelled): a key or value of 64 KB or more cannot be encoded, and an
+   entry with 4 + len key + len value >= chunkSize fits no chunk: the call returns without storing
+   anything and without touching an older entry under the key *)
+Definition entry_len (e : centry) : Z :=
+  match e with CNeg => 0 | CBig => 1 | CPos _ v => 8 + blen v end.
+Definition fc_fits (pk cc : bytes) (e : centry) : bool :=
+  (blen pk + blen cc <? 65536) && (entry_len e <? 65536)
+  && (4 + blen pk + blen cc + entry_len e <? fastcache_chunk_size).
+Definition fc_set (c : cache) (pk cc : bytes) (e : centry) : cache :=
+  if fc_fits pk cc e then c_set c pk cc e else c.
+
+(* the mark itself fits (key shorter than chunkSize - 5 = 65531 bytes); then "known missing" fits too *)
+Definition key_fits (pk cc : bytes) : bool := fc_fits pk cc CBig.
+
+(* setCached: len(key) + len(entry) >= maxCachedEntrySize *)
+Definition too_big (pk cc v : bytes) : bool := cache_max_entry_size <=? blen pk + blen cc + 8 + blen v.
+
+(* every store of a found row.  [bm] = true: through setCached, which stores the mark instead of an entry
+   that is too big (the code since the repair of F26); false: the entry goes to fastcache as it is, which
+   ignores it when it does not fit - the cache is left UNCHANGED (the code before) *)
+Definition set_pos (bm : bool) (c : cache) (pk cc : bytes) (exp : Z) (v : bytes) : cache :=
+  if bm && too_big pk cc v then fc_set c pk cc CBig else fc_set c pk cc (CPos exp v).
+Definition set_neg (c : cache) (pk cc : bytes) : cache := fc_set c pk cc CNeg.
+
+(* fills under `if !alreadyCached` (a mark is an entry) *)
+Definition set_neg_if_absent (c : cache) (pk cc : bytes) : cache :=
+  match c_get c pk cc with Some _ => c | None => set_neg c pk cc end.
+Definition set_pos_if_absent (bm : bool) (c : cache) (pk cc : bytes) (v : bytes) : cache :=
+  match c_get c pk cc with Some _ => c | None => set_pos bm c pk cc 0 v end.
+
+(* what a read finds in the cache: an answer, or nothing it can use (no entry, or the mark) *)
+Definition c_answer (c : cache) (pk cc : bytes) : option centry :=
+  match c_get c pk cc with
+  | Some CBig | None => None
+  | Some e => Some e
+  end.
 
 Section Seq.
 Context {U : Type} (ustep : U -> sop -> U * sout).
@@ -30,66 +71,66 @@ Record cst := mkC { c_under : U; c_cache : cache; c_now : Z }.
 
 Definition c_expired (now exp : Z) : bool := (0 <? exp) && (exp <=? now).
 
-Definition fill_positive (c : cache) (pk cc v : bytes) : cache :=
-  if cache_positive_fill_guarded then c_set_if_absent c pk cc (Some (0, v)) else c_set c pk cc (Some (0, v)).
+Definition fill_positive (bm : bool) (c : cache) (pk cc v : bytes) : cache :=
+  if cache_positive_fill_guarded then set_pos_if_absent bm c pk cc v else set_pos bm c pk cc 0 v.
 
-Definition fill_positive_batch (c : cache) (pk cc v : bytes) : cache :=
-  if cache_batch_fill_guarded then c_set_if_absent c pk cc (Some (0, v)) else c_set c pk cc (Some (0, v)).
+Definition fill_positive_batch (bm : bool) (c : cache) (pk cc v : bytes) : cache :=
+  if cache_batch_fill_guarded then set_pos_if_absent bm c pk cc v else set_pos bm c pk cc 0 v.
 
-Definition cache_step (s : cst) (o : sop) : cst * sout :=
+Definition cache_step_gen (bm : bool) (s : cst) (o : sop) : cst * sout :=
   let u := c_under s in let c := c_cache s in let now := c_now s in
   match o with
   | OPut pk cc v =>
       let '(u', out) := ustep u o in
-      (mkC u' (match out with RUnit => c_set c pk cc (Some (0, v)) | _ => c end) now, out)
+      (mkC u' (match out with RUnit => set_pos bm c pk cc 0 v | _ => c end) now, out)
   | OPutBatch items =>
       let '(u', out) := ustep u o in
       (mkC u' (match out with
-               | RUnit => fold_left (fun c it => c_set c (fst (fst it)) (snd (fst it)) (Some (0, snd it))) items c
+               | RUnit => fold_left (fun c it => set_pos bm c (fst (fst it)) (snd (fst it)) 0 (snd it)) items c
                | _ => c end) now, out)
   | OGet pk cc =>
-      match c_get c pk cc with
-      | Some None => (s, RGet None)
-      | Some (Some (_, v)) => (s, RGet (Some v))
-      | None =>
+      match c_answer c pk cc with
+      | Some CNeg => (s, RGet None)
+      | Some (CPos _ v) => (s, RGet (Some v))
+      | Some CBig | None =>
           let '(u', out) := ustep u o in
           match out with
-          | RGet (Some v) => (mkC u' (fill_positive c pk cc v) now, out)
-          | RGet None => (mkC u' (c_set_if_absent c pk cc None) now, out)
+          | RGet (Some v) => (mkC u' (fill_positive bm c pk cc v) now, out)
+          | RGet None => (mkC u' (set_neg_if_absent c pk cc) now, out)
           | _ => (mkC u' c now, out)
           end
       end
   | OGetBatch pk ccs =>
-      if forallb (fun cc => match c_get c pk cc with Some _ => true | None => false end) ccs
-      then (s, RBatch (map (fun cc => match c_get c pk cc with Some (Some (_, v)) => Some v | _ => None end) ccs))
+      if forallb (fun cc => match c_answer c pk cc with Some _ => true | None => false end) ccs
+      then (s, RBatch (map (fun cc => match c_answer c pk cc with Some (CPos _ v) => Some v | _ => None end) ccs))
       else
         let '(u', out) := ustep u o in
         match out with
         | RBatch vs =>
             (mkC u' (fold_left (fun c ccv => match snd ccv with
-                                             | Some v => fill_positive_batch c pk (fst ccv) v
-                                             | None => c_set_if_absent c pk (fst ccv) None
+                                             | Some v => fill_positive_batch bm c pk (fst ccv) v
+                                             | None => set_neg_if_absent c pk (fst ccv)
                                              end) (combine ccs vs) c) now, out)
         | _ => (mkC u' c now, out)
         end
   | OIns pk cc v ttl =>
       let '(u', out) := ustep u o in
-      (mkC u' (match out with RBool true => c_set c pk cc (Some (exp_of now ttl, v)) | _ => c end) now, out)
+      (mkC u' (match out with RBool true => set_pos bm c pk cc (exp_of now ttl) v | _ => c end) now, out)
   | OCas pk cc old new ttl =>
       let '(u', out) := ustep u o in
-      (mkC u' (match out with RBool true => c_set c pk cc (Some (exp_of now ttl, new)) | _ => c end) now, out)
+      (mkC u' (match out with RBool true => set_pos bm c pk cc (exp_of now ttl) new | _ => c end) now, out)
   | OCad pk cc e =>
       let '(u', out) := ustep u o in
-      (mkC u' (match out with RBool true => if cache_delete_leaves_marker then c_set c pk cc None else c_del c pk cc | _ => c end) now, out)
+      (mkC u' (match out with RBool true => if cache_delete_leaves_marker then set_neg c pk cc else c_del c pk cc | _ => c end) now, out)
   | OTTLGet pk cc =>
-      match c_get c pk cc with
-      | Some None => (s, RGet None)
-      | Some (Some (exp, v)) =>
+      match c_answer c pk cc with
+      | Some CNeg => (s, RGet None)
+      | Some (CPos exp v) =>
           if c_expired now exp then (mkC u (c_del c pk cc) now, RGet None) else (s, RGet (Some v))
-      | None =>
+      | Some CBig | None =>
           let '(u', out) := ustep u o in
           match out with
-          | RGet None => (mkC u' (c_set_if_absent c pk cc None) now, out)
+          | RGet None => (mkC u' (set_neg_if_absent c pk cc) now, out)
           | _ => (mkC u' c now, out)
           end
       end
@@ -99,11 +140,16 @@ Definition cache_step (s : cst) (o : sop) : cst * sout :=
       let '(u', out) := ustep u o in (mkC u' c (now + d), out)
   end.
 
-Fixpoint run_cache (s : cst) (ops : list sop) : list sout :=
+(* the code as it is: the flag read from the source *)
+Definition cache_step := cache_step_gen cache_big_values_marked.
+
+Fixpoint run_cache_gen (bm : bool) (s : cst) (ops : list sop) : list sout :=
   match ops with
   | [] => []
-  | o :: r => let '(s', out) := cache_step s o in out :: run_cache s' r
+  | o :: r => let '(s', out) := cache_step_gen bm s o in out :: run_cache_gen bm s' r
   end.
+
+Definition run_cache := run_cache_gen cache_big_values_marked.
 
 End Seq.
 
@@ -144,18 +190,27 @@ Definition satisfies_seq (t : strace) : bool :=
 
 (* One key.  The writer runs a program of writes that all succeed: the i-th write leaves content
    number i in the storage (content 0 is what was there before the run; None = no row).
-   Readers run Get / TTLGet.  Cache content for the key: None = not cached, Some None = cached as
-   "known missing", Some (Some v) = value v cached.  One step = one of the sections delimited by
-   the calls into the underlying storage and by the cache mutex. *)
-Inductive wop := WPut (v : N) | WIns (v : N) | WDel.      (* Put / InsertIfNotExists / CompareAndDelete *)
+   Readers run Get / TTLGet.  Values are numbers; a number >= 256 stands for a value too big for a
+   cache entry (the harness uses one-byte values for v < 256 and 70000 bytes of the byte v - 256
+   otherwise).  Cache content for the key: None = not cached, Some ENeg = cached as "known missing",
+   Some (EVal v) = value v cached, Some EBig = marked "row too big for the cache".  One step = one of
+   the sections delimited by the calls into the underlying storage and by the cache mutex. *)
+Inductive wop := WPut (v : N) | WIns (v : N) | WDel | WPutBig (v : N).   (* Put / InsertIfNotExists / CompareAndDelete / Put of a big value *)
 Inductive rop := OpGet | OpTTLGet.
 Inductive rpc := RIdle | RMissed (o : rop) | RGot (o : rop) (e : option N).
+Inductive sentry := ENeg | EVal (v : N) | EBig.
 
-Definition wcontent (w : wop) : option N := match w with WPut v | WIns v => Some v | WDel => None end.
+Definition big_val (v : N) : bool := (256 <=? v)%N.
+Definition wcontent (w : wop) : option N :=
+  match w with WPut v | WIns v => Some v | WDel => None | WPutBig v => Some (256 + v)%N end.
+
+(* what a reader gets out of an entry: an answer, or (the mark) nothing *)
+Definition entry_answer (e : sentry) : option (option N) :=
+  match e with ENeg => Some None | EVal v => Some (Some v) | EBig => None end.
 
 Record sch := mkSch {
   s_store : option N;
-  s_cache : option (option N);
+  s_cache : option sentry;
   s_wpc : option wop;               (* the write whose storage step is done and whose cache step is not *)
   s_wprog : list wop;               (* writes not yet started *)
   s_completed : N;                  (* writes that have returned *)
@@ -183,27 +238,36 @@ Fixpoint set_nth {T} (l : list T) (i : nat) (x : T) : list T :=
 Definition set_readers (s : sch) (rs : list (rpc * list rop)) : sch :=
   mkSch (s_store s) (s_cache s) (s_wpc s) (s_wprog s) (s_completed s) (s_started s) (s_hist s) rs.
 
-Definition fill_if_absent (c : option (option N)) (e : option N) : option (option N) :=
+Definition fill_if_absent (c : option sentry) (e : sentry) : option sentry :=
   match c with Some _ => c | None => Some e end.
 
+(* the store of a found value v.  [bm]: is a value too big for an entry replaced by the mark (true, the
+   code since the repair of finding F26) or ignored by fastcache, the entry staying as it was (false) *)
+Definition set_val (bm : bool) (c : option sentry) (v : N) : option sentry :=
+  if big_val v then (if bm then Some EBig else c) else Some (EVal v).
+
 (* what the reader's last step does to the cache *)
-Definition reader_fill (o : rop) (got : option N) (c : option (option N)) : option (option N) :=
+Definition reader_fill (bm : bool) (o : rop) (got : option N) (c : option sentry) : option sentry :=
   match o, got with
-  | OpGet, Some v => if cache_positive_fill_guarded then fill_if_absent c (Some v) else Some (Some v)
-  | OpGet, None => fill_if_absent c None
+  | OpGet, Some v => if cache_positive_fill_guarded then match c with Some _ => c | None => set_val bm c v end
+                     else set_val bm c v
+  | OpGet, None => fill_if_absent c ENeg
   | OpTTLGet, Some _ => c                                   (* a found TTL row is not cached *)
-  | OpTTLGet, None => if cache_ttlget_negative_fill_guarded then fill_if_absent c None else Some None
+  | OpTTLGet, None => if cache_ttlget_negative_fill_guarded then fill_if_absent c ENeg else Some ENeg
   end.
 
 (* [mk]: does a successful CompareAndDelete leave a "not found" entry in the cache (true, the code
-   since the repair of finding F8b) or drop the entry (false, the code before) *)
-Definition sch_step_gen (mk : bool) (s : sch) (p : pid) : option (sch * sobs) :=
+   since the repair of finding F8b) or drop the entry (false, the code before); [bm]: see set_val *)
+Definition sch_step_gen (mk bm : bool) (s : sch) (p : pid) : option (sch * sobs) :=
   match p with
   | PW =>
       match s_wpc s with
       | Some w =>
           (* cache update + return *)
-          let c' := match w with WDel => if mk then Some None else None | _ => Some (wcontent w) end in
+          let c' := match wcontent w with
+                    | None => if mk then Some ENeg else None
+                    | Some v => set_val bm (s_cache s) v
+                    end in
           Some (mkSch (s_store s) c' None (s_wprog s) (s_started s) (s_started s) (s_hist s) (s_readers s), SWDone)
       | None =>
           match s_wprog s with
@@ -218,33 +282,33 @@ Definition sch_step_gen (mk : bool) (s : sch) (p : pid) : option (sch * sobs) :=
       | None => None
       | Some (RIdle, []) => None
       | Some (RIdle, o :: rest) =>
-          match s_cache s with
-          | Some e => Some (set_readers s (set_nth (s_readers s) i (RIdle, rest)), SGetHit (s_completed s) e)
+          match match s_cache s with Some e => entry_answer e | None => None end with
+          | Some r => Some (set_readers s (set_nth (s_readers s) i (RIdle, rest)), SGetHit (s_completed s) r)
           | None => Some (set_readers s (set_nth (s_readers s) i (RMissed o, rest)), SGetStart (s_completed s))
           end
       | Some (RMissed o, rest) =>
           Some (set_readers s (set_nth (s_readers s) i (RGot o (s_store s), rest)), SNone)
       | Some (RGot o e, rest) =>
-          Some (mkSch (s_store s) (reader_fill o e (s_cache s)) (s_wpc s) (s_wprog s) (s_completed s) (s_started s)
+          Some (mkSch (s_store s) (reader_fill bm o e (s_cache s)) (s_wpc s) (s_wprog s) (s_completed s) (s_started s)
                       (s_hist s) (set_nth (s_readers s) i (RIdle, rest)), SGetDone e)
       end
   end.
 
-Definition sch_step := sch_step_gen cache_delete_leaves_marker.
+Definition sch_step := sch_step_gen cache_delete_leaves_marker cache_big_values_marked.
 
 Definition sch_init (init : option N) (prog : list wop) (readers : list (list rop)) : sch :=
   mkSch init None None prog 0 0 [init] (map (fun g => (RIdle, g)) readers).
 
-Fixpoint sch_run_gen (mk : bool) (s : sch) (ps : list pid) : option (list sobs) :=
+Fixpoint sch_run_gen (mk bm : bool) (s : sch) (ps : list pid) : option (list sobs) :=
   match ps with
   | [] => Some []
-  | p :: r => match sch_step_gen mk s p with
+  | p :: r => match sch_step_gen mk bm s p with
               | None => None
-              | Some (s', o) => option_map (cons o) (sch_run_gen mk s' r)
+              | Some (s', o) => option_map (cons o) (sch_run_gen mk bm s' r)
               end
   end.
 
-Definition sch_run := sch_run_gen cache_delete_leaves_marker.
+Definition sch_run := sch_run_gen cache_delete_leaves_marker cache_big_values_marked.
 
 Record ctrace := mkCTrace { ct_init : option N; ct_prog : list wop; ct_readers : list (list rop);
                             ct_sched : list pid; ct_obs : list sobs }.
